@@ -5,6 +5,7 @@ import (
 	"fmt"
 	"reflect"
 	"strings"
+	"sync"
 )
 
 // Object holds the definition for objects comprised of defined fields.
@@ -66,7 +67,20 @@ func (o *ObjectSchema) ReflectedType() reflect.Type {
 	return reflect.TypeOf(map[string]any{})
 }
 
+// objectDefaultsMutex guards the lazy decoding of default values of object schemas that were not built by a
+// constructor (schemas unserialized from their description). Object schemas are copied by value in places, so
+// the lock cannot live in the struct.
+var objectDefaultsMutex sync.RWMutex
+
 func (o *ObjectSchema) GetDefaults() map[string]any {
+	objectDefaultsMutex.RLock()
+	defaultValues := o.defaultValues
+	objectDefaultsMutex.RUnlock()
+	if defaultValues != nil {
+		return defaultValues
+	}
+	objectDefaultsMutex.Lock()
+	defer objectDefaultsMutex.Unlock()
 	if o.defaultValues == nil {
 		o.defaultValues = extractObjectDefaultValues(o.PropertiesValue)
 	}
